@@ -19,6 +19,7 @@ enum State { UNUSED = 0, RUNNABLE, BLOCKED, FINISHED };
 
 struct Thread {
   bool joined;
+  bool alive;       // an OS thread exists for this slot and is parked between executions (thread reuse)
   volatile int go;  // futex word
   State st;
   vs_pred pred;
@@ -103,17 +104,36 @@ void reschedule(int self) {
   if (T[next].st == BLOCKED) T[next].st = RUNNABLE;
   if (next == self) return;
   cur = next;
+  // decide BEFORE handing over: once `next` runs it may start a new execution and recycle this slot
+  const bool parkSelf = self >= 0 && T[self].st != FINISHED;
   wake(next);
-  if (self >= 0 && T[self].st != FINISHED) park(self);
+  if (parkSelf) park(self);
 }
 
+#ifdef TBBRT_TSAN
+extern "C" void __tsan_acquire(void* addr);
+extern "C" void __tsan_release(void* addr);
+#define SCHED_ACQUIRE(p) __tsan_acquire((void*)(p))
+#define SCHED_RELEASE(p) __tsan_release((void*)(p))
+#else
+#define SCHED_ACQUIRE(p) ((void)0)
+#define SCHED_RELEASE(p) ((void)0)
+#endif
+
+// OS threads are created once per slot and reused by later executions of the same process (clone()
+// is expensive in this sandbox).  The start and join edges the program has are told to the race
+// detector explicitly, since no pthread_create/pthread_join happens per execution.
 void* trampoline(void* p) {
   int t = (int)(intptr_t)p;
   my_tid = t;
-  park(t);
-  T[t].fn(T[t].farg);
-  T[t].st = FINISHED;
-  reschedule(t);
+  for (;;) {
+    park(t);  // woken when scheduled for the first time in an execution
+    SCHED_ACQUIRE(&T[t].fn);
+    T[t].fn(T[t].farg);
+    SCHED_RELEASE(&T[t].st);
+    T[t].st = FINISHED;
+    reschedule(t);
+  }
   return nullptr;
 }
 
@@ -126,7 +146,12 @@ extern "C" {
 void vs_begin(vs_shared* sh) {
   vs_mutex_reset();
   SH = sh;
-  memset(T, 0, sizeof T);
+  for (int t = 0; t < VS_MAX_THREADS; ++t) {
+    T[t].st = UNUSED;
+    T[t].joined = false;
+    T[t].pred = nullptr;
+    T[t].go = 0;
+  }
   nthreads = 1;
   T[0].st = RUNNABLE;
   my_tid = 0;
@@ -140,8 +165,6 @@ void vs_begin(vs_shared* sh) {
 void vs_end(void) {
   for (int t = 1; t < nthreads; ++t)
     if (T[t].st != FINISHED) die(3, "vs_end with unfinished threads");
-  for (int t = 1; t < nthreads; ++t)
-    if (!T[t].joined) pthread_join(T[t].pt, nullptr);
   active = false;
   if (SH->trace_len < SH->prefix_len) die(3, "divergence: execution ended before the prefix was consumed");
   SH->status = 1;
@@ -158,10 +181,15 @@ int vs_thread_create(void (*fn)(void*), void* arg) {
   T[t].fn = fn;
   T[t].farg = arg;
   T[t].go = 0;
-  pthread_attr_t a;
-  pthread_attr_init(&a);
-  pthread_attr_setstacksize(&a, 8 << 20);
-  if (pthread_create(&T[t].pt, &a, trampoline, (void*)(intptr_t)t) != 0) die(3, "pthread_create failed");
+  SCHED_RELEASE(&T[t].fn);
+  if (!T[t].alive) {
+    pthread_attr_t a;
+    pthread_attr_init(&a);
+    pthread_attr_setstacksize(&a, 8 << 20);
+    pthread_attr_setdetachstate(&a, PTHREAD_CREATE_DETACHED);
+    if (pthread_create(&T[t].pt, &a, trampoline, (void*)(intptr_t)t) != 0) die(3, "pthread_create failed");
+    T[t].alive = true;
+  }
   return t;
 }
 
@@ -169,12 +197,7 @@ static int finished_pred(void* p) { return T[(int)(intptr_t)p].st == FINISHED; }
 
 void vs_thread_join(int tid) {
   vs_block(finished_pred, (void*)(intptr_t)tid, "join");
-  // The thread has handed the baton on and is leaving its trampoline: a real join cannot block for long,
-  // and it gives the race detector the join edge the program itself has.
-  if (!T[tid].joined) {
-    T[tid].joined = true;
-    pthread_join(T[tid].pt, nullptr);
-  }
+  SCHED_ACQUIRE(&T[tid].st);  // the join edge of the program (threads are reused, there is no pthread_join)
 }
 void vs_note_race(void) {
   if (SH) SH->user[3]++;
